@@ -289,6 +289,50 @@ pub fn run(ctx: &Ctx, rep: &mut Report) {
             rep.nontrivial(&format!("{text}\u{1}{:?}", proj.schema_paths));
             rep.violations(vs);
         }
+        // root-shape documents: an operation of a kind the schema does not declare a root for, while an ordinary
+        // object type carries the default root name (an explicit schema definition makes that legal)
+        for kind in [OpKind::Mutation, OpKind::Subscription] {
+            let tname = if kind == OpKind::Mutation { "Mutation" } else { "Subscription" };
+            if ix.root(kind).is_some() || ix.kind(tname).is_some() || ix.query.is_none() || !rng.coin() {
+                continue;
+            }
+            let mut extra = TsDoc::default();
+            let mut t = TypeDef::new(TKind::Object, tname);
+            t.fields.push(FieldDef { desc: None, name: nm("rootlessField"), args: vec![], ty: Ty::named("Int"), dirs: vec![] });
+            extra.defs.push(TsDef::Type(t));
+            if !ix.has_schema_def {
+                let mut roots = vec![(OpKind::Query, nm(ix.query.as_ref().unwrap()))];
+                if let Some(m) = &ix.mutation {
+                    roots.push((OpKind::Mutation, nm(m)));
+                }
+                if let Some(m) = &ix.subscription {
+                    roots.push((OpKind::Subscription, nm(m)));
+                }
+                extra.defs.push(TsDef::Schema(SchemaDef { ext: false, desc: None, p: P::none(), dirs: vec![], roots }));
+            }
+            let mut model2 = proj.schema_model.clone();
+            model2.defs.extend(extra.defs.clone());
+            let merged2 = merge_extensions(&model2);
+            if !crate::validate::validate_type_system(&model2).is_empty() {
+                continue;
+            }
+            let ix2 = SchemaIx::new(&merged2);
+            let intro2 = introspect(&ix2, schema_desc.as_ref(), style, &mut rng).to_string();
+            let kw = if kind == OpKind::Mutation { "mutation" } else { "subscription" };
+            let text = format!("{kw} Rootless {{\n  rootlessField\n}}\n");
+            let mut sdl: Vec<(String, String)> = proj.files.iter().filter(|(p, _)| !proj.op_paths.contains(p)).cloned().collect();
+            sdl.push((format!("{}/schema/rootless.graphql", proj.root), crate::render::render_ts(&extra, None, Feat::plain())));
+            sdl.push((format!("{}/ops/main.graphql", proj.root), text.clone()));
+            let mut js: Vec<(String, String)> = files_json.iter().filter(|(p, _)| !proj.op_paths.contains(p) && !p.ends_with("introspection.json")).cloned().collect();
+            js.push((format!("{}/schema/introspection.json", proj.root), intro2));
+            js.push((format!("{}/ops/main.graphql", proj.root), text.clone()));
+            let mv = Variant { files_sdl: sdl, files_json: js, root: proj.root.clone(), outputs: vec![], schema_output: None };
+            rep.eval();
+            rep.count(&format!("root_shape_documents|{kw}-without-root-but-type-named-{tname}"));
+            let vs = check_variant(ctx, case * 8 + 5 + (kind == OpKind::Subscription) as u64, &mv, false, &mut st);
+            rep.nontrivial(&format!("{text}\u{1}rootless{:?}", proj.schema_paths));
+            rep.violations(vs);
+        }
     }
     rep.add("verdict_pairs_compared", st.verdicts);
     rep.add("verdict_pairs_both_accept", st.accepted_both);
